@@ -24,7 +24,7 @@ INTERPOLATORS = ["akima", "makima", "cubic", "pchip"]
 BAND_CONST = 3e-4
 BAND_SHAPE = 1e-7
 BAND_LADDER = 0.12
-BAND_IDEAL = 0.04
+BAND_IDEAL = 0.025
 
 
 class _Const:
